@@ -84,9 +84,14 @@ def case_strategy():
         case['small_files'] = small_files
         # blocks that arrive after the first catch-up (the databases have been re-opened for
         # serving by then; each is flushed in full when the processor catches up again)
-        case['tail'] = tail
-        # after the death the compaction tool opens the directory before the server does
+        # after the death the compaction tool opens the directory before the server does (it
+        # refuses a database still in its first sync, so these scenarios always have blocks that
+        # arrive after the first catch-up)
         case['tool_first'] = tool_first
+        if tool_first and not small_files and not tail:
+            tail = [{'cb': [[0, 0]], 'nonce': 7, 'coll': None, 'txs': []},
+                    {'cb': [[1, 1]], 'nonce': 8, 'coll': None, 'txs': []}]
+        case['tail'] = tail
         return case
     return st.builds(shape, base,
                      st.lists(st.sampled_from([0, 1, 2, 2, 0, 1]), min_size=2, max_size=12),
